@@ -134,6 +134,7 @@ class Interp:
         self.target_func = None
         self.loop_invariants = {}  # (func unwrapped, ordinal) -> LoopSpec
         self.on_obligation = None  # callback(name, goal_value, info)
+        self.heap = None
         from . import models
         models.install(self)
 
@@ -152,7 +153,7 @@ class Interp:
         """True iff v contains no symbolic scalar, no tracked instance and no closure (safe for native code)"""
         if isinstance(v, (Sym, Closure, BoundMethod, Opaque, SuperProxy)):
             return False
-        if id(v) in self.symobjs:
+        if id(v) in self.symobjs or getattr(type(v), "__pyv_symbolic__", False):
             return False
         if v is None or isinstance(v, (int, float, str, bytes, bool, complex, type, types.ModuleType,
                                        types.FunctionType, types.BuiltinFunctionType)):
@@ -214,9 +215,17 @@ class Interp:
             func = f.func
             if isinstance(func, Closure):
                 return self.call_closure(func, [f.obj] + list(args), kwargs)
+            uf = loader.unwrap(func)
+            c = self.registry.get(uf)
+            if c is not None and uf is not self.target_func:
+                return self.apply_contract(c, uf, [f.obj] + list(args), kwargs)
             return self.call_repo_function(func, [f.obj] + list(args), kwargs, defclass=f.defclass)
         if isinstance(f, SuperProxy):
             raise EngineLimit("call of super object")
+        if hasattr(type(f), "__pyv_call__"):
+            return f.__pyv_call__(self, args, kwargs)
+        if isinstance(f, (types.FunctionType, types.MethodType)) and (getattr(f, "__module__", "") or "").startswith(("pyv.", "contracts.")):
+            return f(*args, **kwargs)  # a model object's own method (e.g. SymSeq list operations)
         # models first (builtins / numpy with symbolic arguments, isinstance, len, ...)
         key = self._model_key(f)
         allc = self.concrete(args) and self.concrete(kwargs)
@@ -299,6 +308,12 @@ class Interp:
                 raise PyRaise(type(e), str(e), e)
         mod = getattr(cls, "__module__", "")
         is_repo = mod.startswith("partitura") and cls.__dict__.get("__module__", "").startswith("partitura")
+        if is_repo and self.heap is not None and self.heap.static_fields(cls) is not None:
+            r = self.heap.new(cls)
+            init = inspect.getattr_static(cls, "__init__", None)
+            if isinstance(init, types.FunctionType):
+                self.call_repo_function(init, [r] + list(args), kwargs, defclass=_defining_class(cls, "__init__"))
+            return r
         if is_repo and not getattr(cls, "__pyv_native__", False):
             if cls.__new__ is not object.__new__:
                 if self.concrete(args) and self.concrete(kwargs):
